@@ -82,6 +82,13 @@ CLAIMED = {
         "Definition enforced on polar angle in [0,pi] (all azimuths); outside only agreement of the two implementations and derivative-consistency are required; at the poles only finiteness of the polar derivative (documented convention).",
         "DESIGN.md 3/C08",
     ),
+    "C18": (
+        "exploration",
+        "complete product of domain counts 1..3 x every grid-size tuple over 1..4 (thorough 1..5) x point dimensionality pattern x list/repeated mode x 3 integrands x vectorised/point-by-point x every chunk size 1..size+1, against nested-loop product quadrature; generators compared element-wise with itertools.product order, enumerated twice and interleaved",
+        "Chunk-size independence and route equality are decided for every chunking of every small product grid (about 1e4 integrals quick), including chunk sizes that do not divide the total and size-1 grids; generator alignment is checked by interleaved consumption.",
+        "Plain nested loops in float64 as reference (tolerance 1e-12 of sum|w f|); grids of up to 5 nodes per domain.",
+        "DESIGN.md 3/C18",
+    ),
 }
 
 NOT_YET = "check not built yet in this session (work in progress; see DESIGN.md section 8 for the order of work)"
